@@ -270,6 +270,10 @@ GOOD_LOCS = [
     ("https://tv.example:443/d", ADDR4),             # no ip version
     ("http://127.0.0.2:80/desc.xml", ADDR4),         # accepted by the code (DESIGN §7 out-of-domain note)
     ("http://[2001:db8::11]/x", ADDR6),
+    ("http://[2001:db8:0:1:2:3:4:5]:8080/full", ADDR6),   # full form
+    ("http://[1:2:3:4:5:6:7::]/t", ADDR6),                # trailing ::
+    ("http://[::2:3]/l", ADDR6),                          # leading ::
+    ("http://[1::2:3:4:5:6:7:8]/bad", ADDR6),             # 8 hextets with :: -> ip_address refuses -> no ip version
 ]
 BAD_LOCS = ["http://127.0.0.1:80/d", "http://[::1]:80/d", "http://169.254.7.7/d", "ftp://192.168.1.10/d", "", "xhttp://192.168.1.10/",
             "HTTP://192.168.1.10/"]
